@@ -226,6 +226,9 @@ def IfC.position : IfC → Pos
   | .mk position _ _ _ _ _ _ _ _ _ _ => position
 def IfC.hasThen : IfC → Bool
   | .mk _ hasThen _ _ _ _ _ _ _ _ _ => hasThen
+/-- the `else` pseudo clause has no condition and no further `else` -/
+def IfC.elseShape : IfC → Bool
+  | .mk _ _ _ _ cond condLast _ _ _ _ els => cond.isEmpty && condLast.isEmpty && els.isNone
 def Cmd.isNone : Cmd → Bool
   | .none => true
   | _ => false
@@ -361,16 +364,22 @@ def nestedPre (n : Nat) (endLine : Nat) (closing : Pos) (σ : St) : St :=
 def nestedPost (o : Opts) (closing : Pos) (σ : St) : St :=
   if closing.valid then flushComments o σ else σ
 
-/-- The comment loop at the top of the `stmtList` body: comments before the statement, comments
-    between its start and the end of the command, the first comment after the command, and the
-    comments the `break` never looks at. -/
-def classify (pos cmdEnd : Pos) (hasCmd : Bool) : List Com → List Com × List Com × List Com × List Com
+/-- The comment loop at the top of the `stmtList` body, for the two tests `isEnd`
+    (`s.Cmd != nil && c.End().After(s.Cmd.End())`) and `isMid` (`c.Pos().After(pos)`): comments
+    before the statement, comments between its start and the end of the command, the first
+    comment after the command, and the comments the `break` never looks at. -/
+def classifyP (isEnd isMid : Com → Bool) : List Com → List Com × List Com × List Com × List Com
   | [] => ([], [], [], [])
   | c :: cs =>
-    if hasCmd && c.endAfter cmdEnd then ([], [], [c], cs)
+    if isEnd c then ([], [], [c], cs)
     else
-      let (b, m, e, d) := classify pos cmdEnd hasCmd cs
-      if c.pos.after pos then (b, c :: m, e, d) else (c :: b, m, e, d)
+      let r := classifyP isEnd isMid cs
+      if isMid c then (r.1, c :: r.2.1, r.2.2.1, r.2.2.2) else (c :: r.1, r.2.1, r.2.2.1, r.2.2.2)
+
+def isEndCom (cmdEnd : Pos) (hasCmd : Bool) (c : Com) : Bool := hasCmd && c.endAfter cmdEnd
+
+def classify (pos cmdEnd : Pos) (hasCmd : Bool) (cs : List Com) :=
+  classifyP (isEndCom cmdEnd hasCmd) (fun c => c.pos.after pos) cs
 
 /-- The loops in `elemJoin` and in the `else` branch of `ifClause`: comments up to the first one
     after `pos` are queued at once, that one is kept for later, the rest is never looked at. -/
@@ -646,11 +655,11 @@ def emitted (o : Opts) (f : File) : List Com := (printFile o f).emitted
 /-! ## Specification side: the comment fields of the tree, in the canonical field order -/
 
 def beforeOf (pos cmdEnd : Pos) (hasCmd : Bool) (cs : List Com) : List Com :=
-  cs.filter fun c => !(hasCmd && c.endAfter cmdEnd) && !c.pos.after pos
+  cs.filter fun c => !isEndCom cmdEnd hasCmd c && !c.pos.after pos
 def midOf (pos cmdEnd : Pos) (hasCmd : Bool) (cs : List Com) : List Com :=
-  cs.filter fun c => !(hasCmd && c.endAfter cmdEnd) && c.pos.after pos
+  cs.filter fun c => !isEndCom cmdEnd hasCmd c && c.pos.after pos
 def endOf (cmdEnd : Pos) (hasCmd : Bool) (cs : List Com) : List Com :=
-  cs.filter fun c => hasCmd && c.endAfter cmdEnd
+  cs.filter fun c => isEndCom cmdEnd hasCmd c
 
 mutual
   def acItem : Item → List Com
@@ -766,7 +775,7 @@ mutual
   def wfStmts (ni : Bool) : List Stmt → Bool
     | [] => true
     | s :: ss =>
-      onlyLast (fun c => s.hasCmd && c.endAfter s.cmdEnd) s.coms && wfStmt ni s && wfStmts ni ss
+      onlyLast (isEndCom s.cmdEnd s.hasCmd) s.coms && wfStmt ni s && wfStmts ni ss
   def wfCmd (ni : Bool) : Cmd → Bool
     | .none => true
     | .flat items => wfItems ni items
@@ -786,7 +795,7 @@ mutual
       wfStmts ni cond && wfStmts ni thn && (match els with
         | none => true
         | some e =>
-          (e.hasThen || onlyLast (fun c => c.pos.after e.position) last) && wfIf ni e)
+          (e.hasThen || (onlyLast (fun c => c.pos.after e.position) last && e.elseShape)) && wfIf ni e)
   def wfCaseItems (ni : Bool) : List CaseItem → Bool
     | [] => true
     | .mk pos _ _ coms pats stmts _ :: rest =>
